@@ -74,8 +74,14 @@ NUMERIC = [
     'count().to_generator().windows(0).take(1).to_array()', 'count().to_generator().chunks(0).take(1).to_array()', 'range(10).to_generator().windows(1000000000000).to_array()',
     '[1, 2, 3].repeat(1000000000000).len()', '[1, 2, 3].to_generator().repeat(1000000000000).len()', 'chr(1114111).len()', 'json_deserialize("[" * 100000)',
     'json_deserialize("[" * 2000 + "]" * 2000).serialize().len()', 'sleep(seconds(0.0))',
+    # counts and precisions far beyond the data they apply to
+    '[3, 1, 2].n_largest(1000000000000000000)', '[3, 1, 2].n_smallest(1000000000000000000)', 'range(10).n_largest(%s)' % xint((1 << 64) - 1), 'range(1000000000000000000).sample(30000000).len()',
+    'range(1000000000000000000).sample(999999999999999999).len()', '1.5.format(".3000000000f")', '1.5.format(".70000f").len()', '1.5.format(".65535f").len()', '1.5.format(".65536e").len()', '1.5.format(".99999%").len()',
+    '[1, 2, 3].to_generator().n_largest(1000000000000000000)' if False else '[1, 2, 3].take(1000000000000000000).len()', '[1, 2, 3].to_generator().take(1000000000000000000).len()',
+    'permutation(300000000, 18446744073709551615, 300000000)',
 ]
-HANG_KNOWN = ['geometric_distribution(1.0).random()', 'negative_binomial_distribution(0.5, 1.0).sample(40)', 'students_t_distribution(0.5, 1000.0, 0.5).sample(40)']
+HANG_KNOWN = ['geometric_distribution(1.0).random()', 'negative_binomial_distribution(0.5, 1.0).sample(40)', 'students_t_distribution(0.5, 1000.0, 0.5).sample(40)',
+              'hypergeometric_distribution(40000000000, 20000000000, 20000000000).cdf(3000000000)', 'binomial_distribution(999999999999, 0.5).sample(1)']
 
 
 def cases(tier):
